@@ -24,7 +24,13 @@ def m(id, prop, kind, rel, edits, expect=None, all=False):
     return {'id': id, 'prop': prop, 'kind': kind, 'rel': rel, 'edits': edits, 'expect': expect, 'all': all}
 
 
+def mp(id, prop, kind, patch, expect=None):
+    import os
+    return {'id': id, 'prop': prop, 'kind': kind, 'patch': os.path.join(os.path.dirname(os.path.abspath(__file__)), 'keep_patches', patch), 'expect': expect}
+
+
 CATALOGUE = [
+    mp('c06-keep-table-driven-specobjid', 'C06', 'keep', 'c06-table-driven-specobjid.diff'),
     # ------------------------------------------------------------------ C01
     m('c01-typemap-long-int', 'C01', 'break', Y, [("'i8': 'long'", "'i8': 'int'")], 'C01.TYPEMAP'),
     m('c01-unsigned-added', 'C01', 'break', Y, [("'f8': 'double'}", "'f8': 'double', 'u4': 'int'}")], 'C01.REFUSE'),
@@ -57,7 +63,7 @@ CATALOGUE = [
     m('c03-keep-timestamp-moved', 'C03', 'keep', Y, [("        timestamp = datetime.datetime.utcnow().strftime('%Y-%m-%d %H:%M:%S UTC')\n        contents = ''\n",
                                                       "        contents = ''\n        timestamp = datetime.datetime.utcnow().strftime('%Y-%m-%d %H:%M:%S UTC')\n")]),
     # ------------------------------------------------------------------ C06
-    m('c06-shift-off-by-one', 'C06', 'break', S, [("(rerun << 48) |", "(rerun << 49) |")], 'C06.PACK'),
+    m('c06-shift-off-by-one', 'C06', 'break', S, [("(rerun.astype(np.int64) << 48) |", "(rerun.astype(np.int64) << 49) |")], 'C06.PACK'),
     m('c06-guard-loose', 'C06', 'break', S, [("(rerun >= 2**11)", "(rerun >= 2**12)")], 'C06.GUARD'),
     m('c06-guard-tight', 'C06', 'break', S, [("(objnum >= 2**16)", "(objnum >= 2**15)")], 'C06.GUARD'),
     m('c06-guard-deleted', 'C06', 'break', S, [("    if ((fiber < 0) | (fiber >= 2**12)).any():\n        raise ValueError(\"fiber values are out-of-bounds!\")\n", "")], 'C06.GUARD'),
@@ -70,7 +76,8 @@ CATALOGUE = [
     m('c06-keep-65536', 'C06', 'keep', S, [("(objnum >= 2**16)", "(objnum >= 65536)")]),
     m('c06-keep-guards-reordered', 'C06', 'keep', S, [("    if ((firstfield < 0) | (firstfield > 1)).any():\n        raise ValueError(\"firstfield values are out-of-bounds!\")\n    if ((skyversion < 0) | (skyversion >= 16)).any():\n        raise ValueError(\"skyversion values are out-of-bounds!\")\n",
                                                    "    if ((skyversion < 0) | (skyversion >= 16)).any():\n        raise ValueError(\"skyversion values are out-of-bounds!\")\n    if ((firstfield < 0) | (firstfield > 1)).any():\n        raise ValueError(\"firstfield values are out-of-bounds!\")\n")]),
-    m('c06-keep-left-shift', 'C06', 'keep', S, [("(run << 32) |", "np.left_shift(run, 32) |")]),
+    m('c06-keep-left-shift', 'C06', 'keep', S, [("(run.astype(np.int64) << 32) |", "np.left_shift(run.astype(np.int64), 32) |")]),
+    m('c06-narrow-shift', 'C06', 'break', S, [("(run.astype(np.int64) << 32) |", "(run << 32) |")], 'C06.WIDE'),
     m('c06-keep-hex-mask', 'C06', 'keep', PO, [("np.bitwise_and(tempobjid >> 32, 2**16 - 1)", "np.bitwise_and(tempobjid >> 32, 0xFFFF)")]),
     m('c06-keep-amp', 'C06', 'keep', PO, [("unwrap.id = np.bitwise_and(tempobjid, 2**16 - 1)", "unwrap.id = tempobjid & (2**16 - 1)")]),
     # ------------------------------------------------------------------ C07
